@@ -408,6 +408,39 @@ func equalObject(left, right Object) bool {
 		return len(leftSet.Value) == len(rightSet.Value) && leftSet.Contains(rightSet)
 	}
 
+	switch l := left.(type) {
+	case *Number:
+		// by value: the numeral a number was read from ("1.0", "01") is not part of its value
+		return l.Value == right.(*Number).Value
+	case *List:
+		r := right.(*List)
+		if len(l.Value) != len(r.Value) {
+			return false
+		}
+
+		for i := range l.Value {
+			if !equalObject(l.Value[i], r.Value[i]) {
+				return false
+			}
+		}
+
+		return true
+	case *Map:
+		r := right.(*Map)
+		if len(l.Value) != len(r.Value) {
+			return false
+		}
+
+		for k, lv := range l.Value {
+			rv, ok := r.Value[k]
+			if !ok || !equalObject(lv, rv) {
+				return false
+			}
+		}
+
+		return true
+	}
+
 	return reflect.DeepEqual(left, right)
 }
 
